@@ -331,6 +331,9 @@ def c09(ck, F, tier):
     guarded(ck, rp.lit_rule, F)
     ck.rule("SEP", "separators chosen by the printers are the tokens the parser expects in that locale", floor=6, exhaustive=True)
     guarded(ck, rp.sep_rule, F)
+    import rules_struct as rs_
+    ck.rule("FULL-RANGE", "whole-row / whole-column printing requires both corners absolute and spanning the sheet", floor=3)
+    guarded(ck, rs_.full_flags, F)
 
 
 def c16(ck, F, tier):
